@@ -44,6 +44,15 @@ pub fn check_ts(case: &TsCase, st: &mut Stats, exact_count: bool) -> Result<(), 
     }
     let got = UtcDateTime::from_timespec(t, ns);
     let got2 = DateTime::from_timespec(t, ns, TimeZoneRef::utc());
+    if ns >= 1_000_000_000 {
+        // this constructor passes nanoseconds through today; refusing out-of-range nanoseconds would be just as compatible with C01,
+        // so only "no panic, and a returned value carries the given nanoseconds" is asserted for them
+        st.class("nanoseconds_beyond_one_second_not_asserted");
+        return match (&got, &got2) {
+            (Ok(a), _) if a.nanoseconds() != ns => Err(format!("t={t}: nanoseconds {} returned for {ns}", a.nanoseconds())),
+            _ => Ok(()),
+        };
+    }
     match (&exp, &got) {
         (None, Err(TzError::OutOfRange)) => {
             st.class("refused");
